@@ -100,6 +100,8 @@ def align(mjm, ref, got) -> Tuple[np.ndarray, np.ndarray, List[str]]:
       ig.append(n)
     elif k[0] == int(mujoco.mjtConstraint.mjCNSTR_EQUALITY) and (rg["J"][n].size == 0 or np.abs(rg["J"][n]).max() < 1e-6):  # zero up to float32 noise (two points of one rigid body: 2e-8)
       problems.append(f"zero_jacobian_equality row {k} only in MJWarp")
+    elif k[0] in (int(mujoco.mjtConstraint.mjCNSTR_LIMIT_TENDON), int(mujoco.mjtConstraint.mjCNSTR_FRICTION_TENDON)) and (rg["J"][n].size == 0 or np.abs(rg["J"][n]).max() < 1e-6):
+      problems.append(f"zero_jacobian_tendon row {k} only in MJWarp")  # a tendon that no dof moves: same phenomenon as the equality rows above
     else:
       problems.append(f"row {k} only in MJWarp")
   missing = set(kr) - set(kg)
